@@ -75,10 +75,9 @@ func (tt *testTrie) match(components []string) bool {
 			return true
 		}
 		// See if there's a double-wildcard that may match the empty remaining components.
-		child := tt.children["**"]
-		if child != nil && child.present {
-			child.matched.Add(1)
-			return true
+		// It may in turn be followed by further double-wildcards, so keep descending.
+		if child := tt.children["**"]; child != nil {
+			return child.match(components)
 		}
 		return false
 	}
